@@ -222,8 +222,32 @@ func runProperty(prop *propertySpec, ctxs []*Ctx, known *knownFile, tier, evdir,
 		fmt.Printf("CHECKER-ERROR property=%s: the check cannot decide on this tree (see above)\n", prop.ID)
 		code = 2
 	}
+	var extra map[string]any
+	if tier == "thorough" && onlyRule == "" && os.Getenv("SPOKCHECK_NO_SELFTEST") == "" {
+		results, problems := runSelfTest(prop.ID, ctxs[0].Repo)
+		nS, nSk, nN, nRep := 0, 0, 0, 0
+		for _, r := range results {
+			if r.Kind == "seeded" {
+				nS++
+				if strings.HasPrefix(r.Outcome, "reported") {
+					nRep++
+				}
+			} else {
+				nN++
+			}
+			if strings.HasPrefix(r.Outcome, "skipped") {
+				nSk++
+			}
+		}
+		fmt.Printf("  self-test: %d seeded changes expected to be reported by %s (%d reported, %d skipped), %d behaviour-preserving variants\n", nS, prop.ID, nRep, nSk, nN)
+		for _, p := range problems {
+			fmt.Printf("SELFTEST-WARNING property=%s %s\n", prop.ID, p)
+		}
+		extra = map[string]any{"self_test": results, "self_test_problems": problems,
+			"self_test_note": "checker validation only: seeded changes (must be reported) and behaviour-preserving variants (must stay silent) applied to scratch copies of the analysed tree; it does not change the verdict on /repo"}
+	}
 	if !noEv && onlyRule == "" {
-		if err := writeEvidence(evdir, prop, tier, seed, ctxs, out, wall, nil); err != nil {
+		if err := writeEvidence(evdir, prop, tier, seed, ctxs, out, wall, extra); err != nil {
 			fmt.Fprintf(os.Stderr, "cannot write evidence: %v\n", err)
 			if code == 0 {
 				code = 2
